@@ -218,7 +218,7 @@ class Ctx:
         else:
             code = EXIT_HELD
 
-        if not self.replay_mode:
+        if not self.replay_mode and not os.environ.get("EGVERIF_NO_EVIDENCE"):
             self._write_evidence(rule, floors or {}, known_hit, unknown, code, exhaustive)
         for ln in lines:
             print(ln)
